@@ -66,7 +66,7 @@ def run(ctx: Context, col) -> None:
     _problem_config(ctx, col)
     col.floor("R10.1", 9)
     col.floor("R10.2", 10)
-    col.floor("R10.3", 8)
+    col.floor("R10.3", 10)
     col.floor("R10.4", 4)
     col.floor("R10.5", 1)
     col.floor("R10.6", 5)
@@ -209,6 +209,7 @@ def _stmt_calls(n):
 
 
 def _protocol(ctx, col):
+    attr_t = ast.Attribute
     cm = ctx.ct.get("CheckpointMixin")
     file = cm.module.relpath
     for meth, solver_expr in (("load_checkpoint", "self"), ("restore", None)):
@@ -288,6 +289,26 @@ def _protocol(ctx, col):
             why = "manager.restore(step, StandardRestore(template)) -> _restore_state_from_checkpoint(restored)" if ok else \
                 f"receiver ok={recv_ok}, restored object passed={arg_ok}, step passed={step_ok}, template used={tmpl_ok}"
         col.add("R10.3", construct, file, (apply_.lineno if apply_ else fn.lineno), ok, why, text="apply restored state")
+        # (h) the manager that selects and restores the step reads the directory ARGUMENT
+        dir_param = [a.arg for a in fn.args.args if a.arg not in ("self", "cls")][0]
+        ok, why = False, "no manager.restore(...) call"
+        if mrestore is not None:
+            rc = [c for c in _stmt_calls(mrestore) if isinstance(c.func, attr_t) and c.func.attr == "restore"][0]
+            mgrvar = rc.func.value.id if isinstance(rc.func.value, ast.Name) else None
+            defs = [s_ for s_ in ast.walk(fn) if isinstance(s_, ast.Assign) and any(isinstance(t, ast.Name) and t.id == mgrvar for t in s_.targets)]
+            good = []
+            for d in defs:
+                v = d.value
+                isc = isinstance(v, ast.Call) and isinstance(v.func, ast.Attribute) and v.func.attr == "_create_checkpoint_manager"
+                first = (v.args[0] if isc and v.args else next((k.value for k in v.keywords if k.arg == "checkpoint_dir"), None)) if isc else None
+                good.append(isc and isinstance(first, ast.Name) and first.id == dir_param)
+            latest = [c for n_ in nodes for c in _stmt_calls(n_) if isinstance(c.func, ast.Attribute) and c.func.attr == "latest_step"]
+            same_mgr = all(isinstance(c.func.value, ast.Name) and c.func.value.id == mgrvar for c in latest)
+            ok = bool(defs) and all(good) and same_mgr and mgrvar is not None
+            why = (f"`{mgrvar}` is only ever _create_checkpoint_manager({dir_param}, ...): the step is selected and read from the directory argument"
+                   if ok else f"the manager `{mgrvar}` that restores the step is not always created from the `{dir_param}` argument "
+                   f"({[norm_text(d)[:70] for d in defs]}): state may be read from another directory (e.g. the one recorded in config.yaml)")
+        col.add("R10.3", construct, file, (mrestore.lineno if mrestore else fn.lineno), ok, why, text="manager reads the directory argument")
         if meth == "restore":
             # (e) missing config.yaml => FileNotFoundError before instantiate
             inst = _first(nodes, lambda n: has_call(n, lambda c: isinstance(c.func, ast.Name) and c.func.id == "instantiate"))
